@@ -1,5 +1,6 @@
 mod catalogue;
 mod codec;
+mod lowlevel;
 mod model;
 mod out;
 mod rng;
@@ -13,6 +14,27 @@ fn run_type<T: model::Model>(ctx: &mut Ctx) {
             return;
         }
     }
+    if !ctx.type_filter.is_empty() {
+        let d = T::desc();
+        if !ctx.type_filter.iter().any(|f| d.contains(f.as_str())) {
+            return;
+        }
+    }
+    if let Some(r) = ctx.replay.clone() {
+        if r[0] == "dec" && r.len() == 3 {
+            if r[1] == T::desc() && !ctx.replay_done {
+                ctx.replay_done = true;
+                println!("{} (as {})", codec::dec_str::<T>(&model::unhex(&r[2])), T::rust_name());
+            }
+            return;
+        }
+    }
+    // every type draws from its own stream, so a single type can be replayed in isolation
+    let mut h: u64 = 0xcbf29ce484222325;
+    for b in T::rust_name().bytes() {
+        h = (h ^ b as u64).wrapping_mul(0x100000001b3);
+    }
+    ctx.rng = rng::Rng::new(ctx.seed ^ h);
     if ctx.on("meta") {
         codec::run_meta::<T>(ctx);
     }
@@ -31,6 +53,8 @@ fn main() {
     let mut thorough = false;
     let mut seed: u64 = 0;
     let mut only_type = None;
+    let mut type_filter: Vec<String> = Vec::new();
+    let mut replay: Option<String> = None;
     let mut i = 1;
     while i < args.len() {
         match args[i].as_str() {
@@ -48,6 +72,14 @@ fn main() {
                 i += 1;
                 seed = args[i].parse().unwrap_or(0);
             }
+            "--type-filter" => {
+                i += 1;
+                type_filter = args[i].split(',').map(|s| s.to_string()).collect();
+            }
+            "--replay" => {
+                i += 1;
+                replay = Some(args[i].clone());
+            }
             "--type" => {
                 i += 1;
                 only_type = Some(args[i].clone());
@@ -56,7 +88,50 @@ fn main() {
         }
         i += 1;
     }
-    let mut ctx = Ctx { out: out::Out::new(), rng: rng::Rng::new(seed), thorough, groups, only_type };
-    for_each_type!(run_type, &mut ctx);
+    let mut ctx = Ctx {
+        out: out::Out::new(),
+        rng: rng::Rng::new(seed),
+        seed,
+        thorough,
+        groups,
+        only_type,
+        type_filter,
+        replay: None,
+        replay_done: false,
+    };
+    if let Some(req) = replay {
+        // re-evaluate one request on the implementation: `dec <desc> <hex>` etc.
+        let fields: Vec<String> = req.split('\t').map(|s| s.to_string()).collect();
+        ctx.replay = Some(fields.clone());
+        ctx.groups = ["meta", "enc", "entry", "dec", "const", "offset", "union", "builder", "listvar"]
+            .iter()
+            .map(|s| s.to_string())
+            .collect();
+        if fields.len() >= 2 && ["dec", "enc", "len", "spec", "append", "meta"].contains(&fields[0].as_str()) {
+            ctx.only_type = Some(fields[1].clone());
+            ctx.groups = ["meta", "enc", "entry", "dec"].iter().map(|s| s.to_string()).collect();
+        } else {
+            lowlevel::replay(&fields);
+            return;
+        }
+    }
+    if ctx.on("const") {
+        lowlevel::run_const(&mut ctx);
+    }
+    if ctx.on("offset") {
+        lowlevel::run_offset(&mut ctx);
+    }
+    if ctx.on("union") {
+        lowlevel::run_union(&mut ctx);
+    }
+    if ctx.on("builder") {
+        lowlevel::run_builder(&mut ctx);
+    }
+    if ctx.on("listvar") {
+        lowlevel::run_listvar(&mut ctx);
+    }
+    if ctx.on("meta") || ctx.on("enc") || ctx.on("entry") || ctx.on("dec") {
+        for_each_type!(run_type, &mut ctx);
+    }
     ctx.out.finish();
 }
